@@ -16,10 +16,10 @@ Proof.
 Qed.
 
 Lemma source_recover :
-  find (fun e => String.eqb (fst e) "connState.handle") handler_traces =
+  find (fun e => String.eqb (fst e) "connState.handle") handler_traces_alpha =
   Some ("connState.handle"%string,
-        ["defer:func"; "if:r == nil"; "recover"; "seterr:r:EFAULT"; "endif"; "enddefer";
-         "if:ok"; "delegate:handler.handle(cs)"; "else"; "seterr:r:ENOSYS"; "endif"; "return:"]%string).
+        ["defer:func"; "if:_v2 == nil"; "recover"; "seterr:_v2:EFAULT"; "endif"; "enddefer";
+         "if:_v5"; "delegate:_v4.handle(_v0)"; "else"; "seterr:_v2:ENOSYS"; "endif"; "return:"]%string).
 Proof. vm_compute. reflexivity. Qed.
 
 (** requests whose body is one backend call and nothing before it *)
